@@ -101,13 +101,22 @@ CHECKS.append(
               "itself, other datatypes Typed, tagged LanguageTaggedString). Decides the glue, not rio_xml's writer/reader.",
          note="Trusted: rio_xml implements RDF/XML; error propagation of these files is covered by C15 R15.1.",
          technique="static: success-path template extraction + argument provenance over MIR"))
+CHECKS.append(
+    dict(id="C12", level="other", engine="E1+E3",
+         text="The expressibility filter (kind tables of is_subject/is_object/is_bnode read from switch tables, is_jsonld as the "
+              "conjunction over s/p/o/g, a quad skipped iff !is_jsonld on every path of process_quads) and a panic audit of the "
+              "whole JSON-LD serializer (every unwrap, panic macro, map/vector/string index auto-discharged or audited by exact "
+              "key with its invariant). Decides which quads are omitted and that the engine has no unaudited panic site, not the "
+              "round trip.",
+         note="Trusted: json-ld/json-syntax; the invariants written in the audited table of rules/c12.py.",
+         technique="static: switch-table extraction + path enumeration + MIR panic-site audit"))
 NOT_APPLICABLE = [
     dict(property_id="C17", reason="relativise/resolve inverse is an equation between runtime-computed strings "
          "(byte-offset arithmetic); no structural clause that is a genuine necessary condition without freezing the "
          "code; static analysis in reach cannot decide it"),
 ]
 # properties not yet wired in this commit are listed as not applicable *for now* by gen (see below)
-PENDING = ["C01", "C02", "C05", "C06", "C07", "C11", "C12", "C14",
+PENDING = ["C01", "C02", "C05", "C06", "C07", "C11", "C14",
            ]
 for p in PENDING:
     if p not in [c["id"] for c in CHECKS]:
